@@ -7,7 +7,9 @@ R == Rec[l]
 IsEvent(e) == l <= Len(Rec) /\ Rec[l].e = e /\ l' = l + 1
 TInit == QInit /\ l = 1
 TrReset == IsEvent("reset") /\ Start([names |-> R.names, types |-> R.types, lens |-> R.lens, ev |-> R.ev])
-TrDraw == IsEvent("draw") /\ Draw(R.st, R.diverging, R.changed, R.counter, R.chain)
+\* (flagok: every option-controlled statistic - unconstrained_draw, gradient, transformed_position, transformed_gradient -
+\* is present exactly when its own store_* option is set; computed harness-side from the settings of the run)
+TrDraw == IsEvent("draw") /\ R.flagok /\ Draw(R.st, R.diverging, R.changed, R.counter, R.chain)
 TNext == TrReset \/ TrDraw
 TSpec == TInit /\ [][TNext]_tvars
 Accepted ==
